@@ -3,7 +3,7 @@
 time), run EVERY property's quick check, undo it, and record the verdicts (meta.json, harmless/MATRIX.md).  A VIOLATION here is an
 alarm raised on code where the properties hold."""
 import json, os, subprocess, sys, time
-V = "/verif"
+V = os.environ.get("VERIF_ROOT", "/verif")
 ids = sys.argv[1:]
 root = V + "/harmless"
 items = sorted(d for d in os.listdir(root) if os.path.isdir(os.path.join(root, d)) and (not ids or d in ids))
